@@ -701,6 +701,347 @@ def desugar_try_for_each(fj, by_path, stats):
     return changed
 
 
+def desugar_extend_array(fj, by_path, stats, facts_json):
+    """`MAP.extend([e1, .., en])` and `MAP.extend([e1, .., en].into_iter().map(c))`
+    on a BTreeMap with a literal array of at most 4 elements are the n inserts
+    they abbreviate, in order (BTreeMap's Extend is `for (k, v) in iter
+    { self.insert(k, v); }`); the closure call is left to inline_closure_calls."""
+    body = fj["body"]
+    blocks = body["blocks"]
+    changed = False
+
+    def def_block(local):
+        ds = [blk for blk in blocks if blk["term"].get("k") == "call" and blk["term"].get("dest") and blk["term"]["dest"]["l"] == local and not blk["term"]["dest"]["p"]]
+        return ds[0] if len(ds) == 1 else None
+
+    def fn_of(t):
+        v = t["func"].get("v") if t["func"].get("k") == "const" else None
+        return v if isinstance(v, dict) else {}
+
+    def plain(op):
+        return op.get("k") in ("move", "copy") and not op["pl"]["p"]
+
+    for b in list(blocks):
+        t = b["term"]
+        if t.get("k") != "call" or b["cleanup"] or t.get("target") is None or len(t.get("args") or []) != 2:
+            continue
+        v = fn_of(t)
+        if v.get("fn") != "std::iter::Extend::extend" or not v.get("targs") or v["targs"][0].get("adt") != "std::collections::BTreeMap" or len(v["targs"]) < 2:
+            continue
+        recv, it = t["args"]
+        if not plain(recv) or not plain(it):
+            continue
+        kv_ty = v["targs"][1]
+        if kv_ty.get("k") != "tuple" or len(kv_ty.get("args") or []) != 2:
+            continue
+        cl_local = None
+        cut = []
+        cur = it["pl"]["l"]
+        d = def_block(cur)
+        if d is not None and fn_of(d["term"]).get("fn") == "std::iter::Iterator::map" and len(d["term"]["args"]) == 2 and all(plain(a) for a in d["term"]["args"]):
+            cl_local = d["term"]["args"][1]["pl"]["l"]
+            cut.append(d)
+            cur = d["term"]["args"][0]["pl"]["l"]
+            d = def_block(cur)
+        if d is not None and fn_of(d["term"]).get("fn") == "std::iter::IntoIterator::into_iter" and len(d["term"]["args"]) == 1 and plain(d["term"]["args"][0]):
+            cut.append(d)
+            cur = d["term"]["args"][0]["pl"]["l"]
+        aggs = [st for blk in blocks for st in blk["stmts"] if st["k"] == "assign" and st["pl"]["l"] == cur and not st["pl"]["p"]]
+        if len(aggs) != 1 or aggs[0]["rv"].get("rv") != "aggregate" or aggs[0]["rv"].get("agg") != "array":
+            continue
+        ops = aggs[0]["rv"]["ops"]
+        arr_ty = body["locals"][cur]["ty"]
+        if not (1 <= len(ops) <= 4) or arr_ty.get("k") != "array" or not arr_ty.get("of"):
+            continue
+        elem_ty = arr_ty["of"]
+        if cl_local is None and elem_ty.get("s") != kv_ty.get("s"):
+            continue
+        if cl_local is not None and _closure_of_local_any(blocks, by_path, cl_local) is None:
+            continue
+        # an insert callee of this map type, taken from any call in the crate
+        ins = None
+        for g in facts_json["fns"]:
+            for blk in (g.get("body") or {}).get("blocks", []):
+                tv = fn_of(blk["term"]) if blk["term"].get("k") == "call" else {}
+                if tv.get("name") == "insert" and "BTreeMap" in tv.get("fn", "") and [a.get("s") for a in tv.get("targs", [])][:2] == [a.get("s") for a in v["targs"][0].get("args", [])][:2]:
+                    ins = copy.deepcopy(blk["term"]["func"])
+                    break
+            if ins:
+                break
+        if ins is None:
+            continue
+        sp = t.get("sp")
+        opt_ty = {"s": "std::option::Option<%s>" % kv_ty["args"][1]["s"], "k": "adt", "adt": "std::option::Option", "args": [kv_ty["args"][1]]}
+        call_mut = {"k": "const", "ty": "fn", "v": {"fn": "std::ops::FnMut::call_mut", "full": "std::ops::FnMut::call_mut", "krate": "core", "local": False, "targs": [], "name": "call_mut", "trait": "std::ops::FnMut"}}
+        final = t["target"]
+        first = len(blocks)
+        nb = []
+        for i, o in enumerate(ops):
+            l_elem = len(body["locals"]); body["locals"].append({"ty": copy.deepcopy(elem_ty)})
+            l_kv = l_elem
+            base = first + len(nb)
+            stmts = [{"k": "assign", "pl": {"l": l_elem, "p": []}, "rv": {"rv": "use", "op": copy.deepcopy(o)}, "sp": sp, "exp": True}]
+            if cl_local is not None:
+                l_tup = len(body["locals"]); body["locals"].append({"ty": {"s": "(%s,)" % elem_ty["s"], "k": "tuple", "args": [copy.deepcopy(elem_ty)]}})
+                l_kv = len(body["locals"]); body["locals"].append({"ty": copy.deepcopy(kv_ty)})
+                stmts.append({"k": "assign", "pl": {"l": l_tup, "p": []}, "rv": {"rv": "aggregate", "agg": "tuple", "ops": [{"k": "move", "pl": {"l": l_elem, "p": []}}]}, "sp": sp, "exp": True})
+                nb.append({"cleanup": False, "stmts": stmts,
+                           "term": {"k": "call", "func": copy.deepcopy(call_mut), "args": [{"k": "copy", "pl": {"l": cl_local, "p": []}}, {"k": "move", "pl": {"l": l_tup, "p": []}}],
+                                    "dest": {"l": l_kv, "p": []}, "target": base + 1, "sp": sp, "exp": True}})
+                stmts = []
+            l_opt = len(body["locals"]); body["locals"].append({"ty": copy.deepcopy(opt_ty)})
+            nxt = first + len(nb) + 1 if i + 1 < len(ops) else final
+            nb.append({"cleanup": False, "stmts": stmts,
+                       "term": {"k": "call", "func": copy.deepcopy(ins),
+                                "args": [{"k": "copy", "pl": copy.deepcopy(recv["pl"])},
+                                         {"k": "move", "pl": {"l": l_kv, "p": [{"f": 0, "name": "0", "ty": kv_ty["args"][0]["s"]}]}},
+                                         {"k": "move", "pl": {"l": l_kv, "p": [{"f": 1, "name": "1", "ty": kv_ty["args"][1]["s"]}]}}],
+                                "dest": {"l": l_opt, "p": []}, "target": nxt, "sp": sp, "exp": False}})
+        blocks.extend(nb)
+        for d in cut:
+            d["term"] = {"k": "goto", "target": d["term"]["target"], "sp": d["term"].get("sp"), "exp": True}
+        b["term"] = {"k": "goto", "target": first, "sp": sp, "exp": True}
+        stats.setdefault(fj["path"], []).append("BTreeMap::extend over %d literal element(s)" % len(ops))
+        changed = True
+    return changed
+
+
+def desugar_mem_swap_replace(fj):
+    """`std::mem::swap(a, b)` is `tmp = *a; *a = *b; *b = tmp`, and
+    `std::mem::replace(d, v)` is `old = *d; *d = v; old` (both are plain moves
+    of the bytes): written out, a commit through them is the whole-record
+    assignment the rules know."""
+    body = fj["body"]
+    changed = False
+    for b in body["blocks"]:
+        t = b["term"]
+        if t.get("k") != "call" or b["cleanup"] or t.get("target") is None or t.get("dest") is None:
+            continue
+        v = t["func"].get("v") if t["func"].get("k") == "const" else None
+        if not isinstance(v, dict) or v.get("fn") not in ("std::mem::swap", "core::mem::swap", "std::mem::replace", "core::mem::replace") or len(t["args"]) != 2 or not v.get("targs"):
+            continue
+        a0, a1 = t["args"]
+        if a0.get("k") not in ("move", "copy") or a0["pl"]["p"]:
+            continue
+        sp = t.get("sp")
+        ty = v["targs"][0]
+
+        def pointee(local, depth=0):
+            """the place a reference temporary points to (`&mut L`, or a reborrow of one); else `*local`"""
+            ds = [st for blk in body["blocks"] for st in blk["stmts"] if st["k"] == "assign" and st["pl"]["l"] == local and not st["pl"]["p"]]
+            if depth < 6 and len(ds) == 1 and ds[0]["rv"].get("rv") == "ref" and not any(tb["term"].get("dest") and tb["term"]["dest"]["l"] == local for tb in body["blocks"] if tb["term"].get("k") == "call"):
+                q = ds[0]["rv"]["pl"]
+                if not q["p"]:
+                    return {"l": q["l"], "p": []}
+                if q["p"] == ["deref"]:
+                    return pointee(q["l"], depth + 1)
+            return {"l": local, "p": ["deref"]}
+        d0 = pointee(a0["pl"]["l"])
+        if v["fn"].endswith("swap"):
+            if a1.get("k") not in ("move", "copy") or a1["pl"]["p"]:
+                continue
+            d1 = pointee(a1["pl"]["l"])
+            tmp = len(body["locals"])
+            body["locals"].append({"ty": copy.deepcopy(ty)})
+            b["stmts"].append({"k": "assign", "pl": {"l": tmp, "p": []}, "rv": {"rv": "use", "op": {"k": "move", "pl": copy.deepcopy(d0)}}, "sp": sp, "exp": True})
+            b["stmts"].append({"k": "assign", "pl": copy.deepcopy(d0), "rv": {"rv": "use", "op": {"k": "move", "pl": copy.deepcopy(d1)}}, "sp": sp, "exp": False})
+            # the old value ends up in *b; when b is a whole local that is only dropped afterwards, keep it in the
+            # temporary instead (that local then has a single definition, like a hand-written `*a = b`)
+            back = d1
+            if not d1["p"]:
+                seen, stack, used = set(), [t["target"]], False
+                while stack and not used:
+                    n_ = stack.pop()
+                    if n_ in seen or n_ is None or n_ >= len(body["blocks"]):
+                        continue
+                    seen.add(n_)
+                    blk = body["blocks"][n_]
+                    tt = blk["term"]
+                    probe = json.dumps(blk["stmts"]) + (json.dumps({k_: v_ for k_, v_ in tt.items() if k_ not in ("target", "targets", "otherwise", "unwind", "succ")}) if tt.get("k") != "drop" else "")
+                    if '"l": %d,' % d1["l"] in probe or '"l": %d}' % d1["l"] in probe:
+                        used = True
+                    for k_ in ("target", "otherwise"):
+                        if isinstance(tt.get(k_), int):
+                            stack.append(tt[k_])
+                    for x in tt.get("targets") or []:
+                        stack.append(x[1] if isinstance(x, list) else x)
+                if not used:
+                    back = None
+            if back is not None:
+                b["stmts"].append({"k": "assign", "pl": copy.deepcopy(back), "rv": {"rv": "use", "op": {"k": "move", "pl": {"l": tmp, "p": []}}}, "sp": sp, "exp": True})
+        else:
+            b["stmts"].append({"k": "assign", "pl": copy.deepcopy(t["dest"]), "rv": {"rv": "use", "op": {"k": "move", "pl": copy.deepcopy(d0)}}, "sp": sp, "exp": True})
+            b["stmts"].append({"k": "assign", "pl": copy.deepcopy(d0), "rv": {"rv": "use", "op": copy.deepcopy(a1)}, "sp": sp, "exp": False})
+        b["term"] = {"k": "goto", "target": t["target"], "sp": sp, "exp": True}
+        changed = True
+    return changed
+
+
+def scalar_replace_carriers(fj, facts_json, stats):
+    """A local of a private struct type that is built once, field by field
+    (`S = Carrier { a, b }`), and afterwards only touched through its fields -
+    directly, through `&S`/`&mut S` temporaries whose every use is a field
+    projection (the `self` of spliced-in methods), or after a whole move into
+    another such local (a by-value `self`) - is replaced by one local per
+    field.  The struct never existed at run time as far as behaviour goes: its
+    fields are independent variables.  Anything else (a reference passed to a
+    call that was not spliced in, a whole read) leaves the local alone."""
+    body = fj["body"]
+    blocks = body["blocks"]
+    structs = {a["path"]: a for a in facts_json.get("adts", []) if a.get("kind") == "Struct" and a.get("vis") != "pub" and len(a.get("variants", [])) == 1}
+    if not structs:
+        return False
+    changed = False
+    for S in range(body["arg_count"] + 1, len(body["locals"])):
+        ty = body["locals"][S]["ty"]
+        if ty.get("k") != "adt" or ty.get("adt") not in structs:
+            continue
+        aggs = [(bi, si) for bi, blk in enumerate(blocks) for si, st in enumerate(blk["stmts"]) if st["k"] == "assign" and st["pl"]["l"] == S and not st["pl"]["p"]]
+        if len(aggs) != 1:
+            continue
+        ast = blocks[aggs[0][0]]["stmts"][aggs[0][1]]
+        if ast["rv"].get("rv") != "aggregate" or ast["rv"].get("agg") != "adt" or ast["rv"].get("adt") != ty["adt"]:
+            continue
+        if any(blk["term"].get("k") == "call" and blk["term"].get("dest") and blk["term"]["dest"]["l"] == S for blk in blocks):
+            continue
+        vals = {S}
+        refs = set()
+        ok = True
+        # closure of whole moves and reference temporaries
+        for _ in range(8):
+            grew = False
+            for blk in blocks:
+                for st in blk["stmts"]:
+                    if st["k"] != "assign" or st["pl"]["p"]:
+                        continue
+                    X = st["pl"]["l"]
+                    rv = st["rv"]
+                    if rv.get("rv") == "use" and rv["op"].get("k") in ("move", "copy") and not rv["op"]["pl"]["p"]:
+                        src = rv["op"]["pl"]["l"]
+                        if src in vals and X not in vals:
+                            vals.add(X); grew = True
+                        if src in refs and X not in refs:
+                            refs.add(X); grew = True
+                    if rv.get("rv") == "ref":
+                        q = rv["pl"]
+                        if (q["l"] in vals and not q["p"]) or (q["l"] in refs and q["p"] == ["deref"]):
+                            if X not in refs:
+                                refs.add(X); grew = True
+            if not grew:
+                break
+        if any(x <= body["arg_count"] for x in vals | refs):
+            continue
+        # every member has one definition
+        for x in (vals | refs) - {S}:
+            n = sum(1 for blk in blocks for st in blk["stmts"] if st["k"] == "assign" and st["pl"]["l"] == x and not st["pl"]["p"])
+            n += sum(1 for blk in blocks if blk["term"].get("k") == "call" and blk["term"].get("dest") and blk["term"]["dest"]["l"] == x and not blk["term"]["dest"]["p"])
+            if n != 1:
+                ok = False
+
+        def field_of(pl):
+            """index of the field a place of the group denotes, and the rest of the projection; None if it is a whole use"""
+            if pl["l"] in vals:
+                p = pl["p"]
+            elif pl["l"] in refs and pl["p"][:1] == ["deref"]:
+                p = pl["p"][1:]
+            else:
+                return None
+            if p and isinstance(p[0], dict) and "f" in p[0] and "down" not in p[0]:
+                return p[0]["f"], p[1:]
+            return None
+
+        def alias_stmt(st):
+            if st["k"] != "assign" or st["pl"]["p"] or st["pl"]["l"] not in (vals | refs):
+                return False
+            rv = st["rv"]
+            if st["pl"]["l"] == S:
+                return rv.get("rv") == "aggregate"
+            if rv.get("rv") == "use":
+                return rv["op"].get("k") in ("move", "copy") and not rv["op"]["pl"]["p"] and rv["op"]["pl"]["l"] in (vals | refs)
+            if rv.get("rv") == "ref":
+                q = rv["pl"]
+                return (q["l"] in vals and not q["p"]) or (q["l"] in refs and q["p"] == ["deref"])
+            return False
+
+        def places(o, out):
+            if isinstance(o, dict):
+                if "l" in o and "p" in o and isinstance(o.get("p"), list):
+                    out.append(o)
+                    for e in o["p"]:
+                        if isinstance(e, dict) and "idx" in e and e["idx"] in (vals | refs):
+                            out.append({"l": e["idx"], "p": []})
+                    return
+                for v_ in o.values():
+                    places(v_, out)
+            elif isinstance(o, list):
+                for v_ in o:
+                    places(v_, out)
+        if ok:
+            for blk in blocks:
+                for st in blk["stmts"]:
+                    if alias_stmt(st):
+                        continue
+                    ps = []
+                    places(st, ps)
+                    if any(pl["l"] in (vals | refs) and field_of(pl) is None for pl in ps):
+                        ok = False
+                tt = blk["term"]
+                if tt.get("k") == "drop" and tt["pl"]["l"] in (vals | refs) and not tt["pl"]["p"]:
+                    continue
+                ps = []
+                places({k_: v_ for k_, v_ in tt.items() if k_ not in ("target", "targets", "otherwise", "unwind")}, ps)
+                if any(pl["l"] in (vals | refs) and field_of(pl) is None for pl in ps):
+                    ok = False
+        if not ok:
+            continue
+        # rewrite
+        fields = structs[ty["adt"]]["variants"][0]["fields"]
+        ops = ast["rv"]["ops"]
+        if len(ops) != len(fields):
+            continue
+        new = {}
+        for i, fl in enumerate(fields):
+            o = ops[i]
+            fty = copy.deepcopy(body["locals"][o["pl"]["l"]]["ty"]) if o.get("k") in ("move", "copy") and not o["pl"]["p"] else copy.deepcopy(fl["ty"])
+            new[i] = len(body["locals"])
+            body["locals"].append({"ty": fty, "name": "%s.%s" % (body["locals"][S].get("name") or "_%d" % S, fl["name"])})
+
+        def rewrite(o):
+            if isinstance(o, dict):
+                if "l" in o and "p" in o and isinstance(o.get("p"), list) and o["l"] in (vals | refs):
+                    r = field_of(o)
+                    if r is not None:
+                        o["l"], o["p"] = new[r[0]], r[1]
+                    return
+                for v_ in o.values():
+                    rewrite(v_)
+            elif isinstance(o, list):
+                for v_ in o:
+                    rewrite(v_)
+        for blk in blocks:
+            keep = []
+            for st in blk["stmts"]:
+                if st is ast:
+                    for i in range(len(fields)):
+                        keep.append({"k": "assign", "pl": {"l": new[i], "p": []}, "rv": {"rv": "use", "op": copy.deepcopy(ops[i])}, "sp": st.get("sp"), "exp": st.get("exp", False)})
+                    continue
+                if alias_stmt(st):
+                    continue
+                rewrite(st)
+                keep.append(st)
+            blk["stmts"] = keep
+            tt = blk["term"]
+            if tt.get("k") == "drop" and tt["pl"]["l"] in (vals | refs) and not tt["pl"]["p"]:
+                blk["term"] = {"k": "goto", "target": tt["target"], "sp": tt.get("sp"), "exp": True}
+            else:
+                for k_, v_ in tt.items():
+                    if k_ not in ("target", "targets", "otherwise", "unwind"):
+                        rewrite(v_)
+        stats.setdefault(fj["path"], []).append("carrier struct %s split into %d locals" % (ty["adt"], len(fields)))
+        changed = True
+    return changed
+
+
 def devirtualise_fn_items(fj):
     """`f(args)` where f is a local holding a function item (a function passed
     as `impl Fn*` to a helper that was spliced in): `Fn*::call*(f, (a, b))`
@@ -930,6 +1271,10 @@ def inline_helpers(facts_json, anchors=None):
     stats = {}
     desugar_parse(facts_json)
     desugar_struct_update(facts_json)
+    for f in facts_json["fns"]:
+        if f.get("body"):
+            desugar_extend_array(f, by_path, stats, facts_json)
+            desugar_mem_swap_replace(f)
     for _ in range(MAX_ROUNDS):
         if not any([desugar_for_each(f, by_path, stats) or desugar_map_collect(f, by_path, stats) or desugar_try_for_each(f, by_path, stats) for f in facts_json["fns"]]):
             break
@@ -952,6 +1297,13 @@ def inline_helpers(facts_json, anchors=None):
                     changed = True
         if not changed:
             break
+    for f in facts_json["fns"]:
+        if f.get("body") and not f.get("absorbed"):
+            try:
+                if scalar_replace_carriers(f, facts_json, stats):
+                    desugar_mem_swap_replace(f)
+            except (KeyError, IndexError, TypeError):
+                pass
     facts_json["inlined"] = stats
     # helpers that were spliced into every caller need no standalone analysis
     remaining = set()
